@@ -181,7 +181,7 @@ namespace hmac_hash {
         const uint8_t *shifted_message;
         tmp_len = SHA384_512_BLOCK_SIZE - static_cast<size_t>(m_len);
         rem_len = length < tmp_len ? length : tmp_len;
-        memcpy(&m_block[static_cast<size_t>(m_len)], message, rem_len);
+        if(rem_len > 0) memcpy(&m_block[static_cast<size_t>(m_len)], message, rem_len);
         if((m_len + length) < SHA384_512_BLOCK_SIZE) {
             m_len += length;
             return;
